@@ -59,7 +59,7 @@ class Check(DiffCheck):
     extract_v = 'C20/C20_Extract.v'
     runner_ml = 'ocaml/C20_run.ml'
     model_module = 'C20_model'
-    rule = ('cases: corpus; EVERY string of length <= 7 (thorough: 9) over {/ . a} through open() under 4 bases, through a rotating '
+    rule = ('cases: corpus; EVERY string of length <= 7 (thorough: 10) over {/ . a} through open() under 4 bases, through a rotating '
             'other operation (all 32 path-taking operations incl. xattr and the two-path ones) and through path_level_valid directly; '
             'all pairs of strings of length <= 3 through link/rename/symlink; every operation x a list of interesting paths x bases x '
             'underlay with/without xattr; PRNG component-structured paths (names ., .., ..., ..a, .a, a., high bytes; repeated, leading, '
@@ -86,7 +86,7 @@ class Check(DiffCheck):
         if os.path.exists(cp):
             cs += [l.strip() for l in open(cp) if l.strip() and not l.startswith('#')]
         # exhaustive small domain
-        maxlen = 7 if tier == 'quick' else 9
+        maxlen = 7 if tier == 'quick' else 10
         strs = [b'']
         layer = [b'']
         for _ in range(maxlen):
@@ -96,9 +96,10 @@ class Check(DiffCheck):
         other_bases = bases + [b'', b'b', b'/b//', b'../b', b'./b/', b'..', b'/b/../c', b'/.a']
         others = [o for o in ALLOPS if o != 'open']
         n = len(strs)
-        for i, s in enumerate(strs):
-            for b in bases:
+        for b in bases:                                     # base-major: the harness keeps one subfs per run of equal bases
+            for s in strs:
                 cs.append(mk('open', b, s))
+        for i, s in enumerate(strs):
             o = others[i % len(others)]
             b = other_bases[(i // len(others)) % len(other_bases)]
             cs.append(mk(o, b, s, strs[(i * 7 + 3) % n]))
@@ -139,7 +140,7 @@ class Check(DiffCheck):
             if r < 0.55: return rng.choice(bases)
             if r < 0.75: return rng.choice(other_bases)
             return (b'/' if rng.random() < 0.7 else b'') + b'/'.join(rng.choices(names, wts)[0] for _ in range(rng.randrange(1, 4))) + (b'/' if rng.random() < 0.4 else b'')
-        nrand = 6000 if tier == 'quick' else 150000
+        nrand = 6000 if tier == 'quick' else 400000
         for _ in range(nrand):
             o = rng.choice(ALLOPS) if rng.random() < 0.7 else rng.choice(TWO + SYM + ['open'])
             cs.append(mk(o, rbase(), rpath(), rpath(6), 'd' + ('x' if rng.random() < 0.9 else 'n')))
@@ -170,7 +171,7 @@ class Check(DiffCheck):
             while len(p) < total:
                 p += rng.choices(names, wts)[0] + b'/' * rng.choice([1, 1, 2])
             return p[:total]
-        nlong = 500 if tier == 'quick' else 12000
+        nlong = 500 if tier == 'quick' else 8000
         for _ in range(nlong):
             b = rng.choice([b'/b', b'/b/', b'b/c', b'/', b'/' + b'd' * rng.randrange(1, 3000), b'/' + b'd/' * rng.randrange(1, 1500)])
             room = LIMIT - 1 - len(base_eff(b))             # longest accepted path
